@@ -251,8 +251,9 @@ CLAIMED["C19"] = dict(
         "that no call depends on earlier calls is decided on the implementation: the default-aliasing suite (three results from defaults, "
         "raw writes into every container, identities and values of results / default objects / shared factory objects) and the history "
         "suite (4-8 mixed valid / invalid calls, results written into between calls, each outcome compared with the same call made first "
-        "in a freshly forked process, each input compared with its deep snapshot). A result may alias its *input* where a converter "
-        "returns its argument (bare list / dict / Any fields): the property does not forbid that and the suites do not flag it.",
+        "in a freshly forked process, each input compared with its deep snapshot; the outer container of a field / parameter declared "
+        "with element types must not be one of the caller's own objects). A result may alias its *input* where a converter returns its "
+        "argument (bare list / dict / Any fields and elements): the property does not forbid that and the suites do not flag it.",
    technique="Coq proofs over a heap model of copy_value + copy-value correspondence through id() + aliasing / snapshot / fresh-process "
              "history oracles on the implementation", design="§8 C19")
 CLAIMED["C20"] = dict(
